@@ -157,6 +157,8 @@ def run_atomic(res, work, tier, seed):
         [[["upd", 2], ["bad", 6]], [["try", 5], ["upd", 7]], [["snap"], ["snap"]]],
         [[["try", 1], ["try", 2], ["try", 3]], [["try", 2], ["upd", 1]], [["snap"]]],
         [[["snap"]], [["upd", 1]]],
+        [[["unlocked"], ["snap"]], [["upd", 2], ["upd", 3]]],
+        [[["unlocked"], ["unlocked"]], [["bad", 4]], [["try", 5]]],
     ]
     n_rand = 4000 if tier == "quick" else 60000
     for i in range(n_rand):
